@@ -31,7 +31,26 @@ def block_line(b):
             f'{h.target_bits} {h.nonce} {b.transaction_count} ' + ' '.join([str(len(b.transactions))] + [tx_digest(t) for t in b.transactions]))
 
 
-def block_cases(ctx, raw, slices, tag, nt=True):
+def nonminimal_variant(rng, tx):
+    """the wire bytes of `tx` with one scriptSig data push of 1..75 bytes written with OP_PUSHDATA1 (consensus-valid, not minimal)"""
+    cands = [i for i, x in enumerate(tx.inputs)
+             if any(isinstance(t, str) and not t.startswith('OP_') and 2 <= len(t) <= 150 for t in x.script_sig.script)
+             and x.txid != '00' * 32]
+    if not cands: return None
+    x = tx.inputs[rng.choice(cands)]
+    old_in = x.to_bytes()
+    S = x.script_sig.to_bytes()
+    tok = rng.choice([t for t in x.script_sig.script if isinstance(t, str) and not t.startswith('OP_') and 2 <= len(t) <= 150])
+    d = bytes.fromhex(tok); enc = bytes([len(d)]) + d
+    if S.count(enc) != 1: return None
+    S2 = S.replace(enc, b'\x4c' + enc, 1)
+    new_in = bytes.fromhex(x.txid)[::-1] + old_in[32:36] + cs(len(S2)) + S2 + x.sequence
+    full = tx.to_bytes(tx.has_segwit)
+    if full.count(old_in) != 1: return None
+    return full.replace(old_in, new_in, 1)
+
+
+def block_cases(ctx, raw, slices, tag, nt=True, reser=True):
     from bitcoinutils.transactions import Transaction
     def spec(ans, raw=raw, slices=slices):
         if not ans.startswith('ok '): return ('s:echo block-parse-raised', 'ok 1')
@@ -40,6 +59,7 @@ def block_cases(ctx, raw, slices, tag, nt=True):
         exp = [tx_digest(Transaction.from_raw(s.hex())) for s in slices]
         return ('s:echo ' + ' '.join(head[1:] + [str(len(exp))] + exp), ans)
     yield Case(f'blk_parse {hx(raw)}', 'ms', nontrivial=nt, tag=tag, spec=spec)
+    if not reser: return          # a non-minimal push is re-serialised minimally: the slice itself is not reproduced (outside C15)
     # faithful to the raw block: every parsed transaction re-serialises to its own slice
     exp = hashlib.sha256(b''.join(slices)).hexdigest()
     yield Case(f'blk_reser {hx(raw)}', 's', nontrivial=nt, tag=tag + '-reser', spec=lambda ans, exp=exp: (f's:echo {len(slices)} {exp}', ans))
@@ -83,6 +103,13 @@ def cases(ctx):
     for n in sizes:
         txs = [G.gen_tx(rng, names, kind='coinbase' if i == 0 else None, max_in=4, max_out=4, big=False) for i in range(n)]
         slices = [t.to_bytes(t.has_segwit) for t in txs]
+        reser = True
+        if n >= 2 and rng.random() < 0.35:
+            # one transaction (not the last, so that a dropped tail shows) carries a consensus-valid but non-minimal push
+            k = rng.randrange(0, n - 1)
+            v = nonminimal_variant(rng, txs[k])
+            if v is not None:
+                slices[k] = v; reser = False; ctx.count('synthetic-block-nonminimal-push')
         body = b''.join(slices)
         # the frame's magic is four opaque bytes to the parser: the listed networks, testnet4, a custom signet, anything
         magic = rng.choice([MAGIC, MAGIC, bytes.fromhex('0b110907'), bytes.fromhex('fabfb5da'), bytes.fromhex('0a03cf40'),
@@ -90,7 +117,7 @@ def cases(ctx):
         ctx.count('synthetic-block-magic-' + magic.hex())
         raw = magic + (80 + len(cs(n)) + len(body)).to_bytes(4, 'little') + G.rbytes(rng, 80) + cs(n) + body
         ctx.count('synthetic-block'); ctx.count('synthetic-block-txs', n)
-        yield from block_cases(ctx, raw, slices, f'block-{n}', nt=n >= 2)
+        yield from block_cases(ctx, raw, slices, f'block-{n}', nt=n >= 2, reser=reser)
     # a block whose declared count exceeds what follows: the loop stops silently
     yield Case(f'blk_parse {hx(MAGIC + (81).to_bytes(4, "little") + bytes(80) + cs(3))}', 'm', nontrivial=True, tag='block-short', domain=False)
     yield Case(f'blk_parse {hx(MAGIC + bytes(50))}', 'm', nontrivial=True, tag='block-short', domain=False)
